@@ -569,3 +569,49 @@ Definition owes (s : st) (find : bool) (q p : N) : Prop :=
 Definition idle (s : st) : Prop := forall find q p, ~ owes s find q p.
 
 Definition is_track (x : qstate) : bool := match x with QTrack _ _ _ _ => true | _ => false end.
+
+(* ---- quorum honesty: what was requested, what was sent ---- *)
+(* the quorum a put_record / put_record_to_peers / start_providing command asked for *)
+Definition quorum_of_ev (q : N) (e : ev) : option quorum :=
+  match e with
+  | ECmd q' (CPutRecord qr) _ _ => if q' =? q then Some qr else None
+  | ECmd q' (CStartProviding qr) _ _ => if q' =? q then Some qr else None
+  | EPutToPeers q' qr _ => if q' =? q then Some qr else None
+  | _ => None
+  end.
+Fixpoint find_quorum (q : N) (es : list ev) : option quorum :=
+  match es with
+  | [] => None
+  | e :: t => match quorum_of_ev q e with Some qr => Some qr | None => find_quorum q t end
+  end.
+
+(* a completion that means "the message was written to the peer" *)
+Definition sent_res (r : fres) : bool :=
+  match r with RSendOk | RAssume | RRead _ => true | _ => false end.
+
+(* (query, peer): an executor future working for the query reported a completed send to the peer *)
+Definition sent_by (s : st) (e : ev) : list (N * N) :=
+  match e with
+  | EFut id r =>
+      match find_fut id (futs s) with
+      | Some f => if res_ok (f_kind f) r && sent_res r
+                  then match f_q f with Some q => [(q, f_peer f)] | None => [] end
+                  else []
+      | None => []
+      end
+  | _ => []
+  end.
+Fixpoint sends (g : gcfg) (s : st) (es : list ev) : list (N * N) :=
+  match es with
+  | [] => []
+  | e :: t => sent_by s e ++ sends g (fst (fst (step g s e))) t
+  end.
+
+(* ---- the drain loop terminates: every iteration that finds an action consumes something ---- *)
+Definition qweight (x : qstate) : nat :=
+  match x with
+  | QLookup _ _ _ ls => (3 + length (V.C15.Model.cands ls) + length (V.C15.Model.recq ls))%nat
+  | QToPeers _ _ => 2%nat
+  | QTrack _ _ _ _ => 1%nat
+  end.
+Definition qw (o : option qstate) : nat := match o with Some x => qweight x | None => 0%nat end.
